@@ -39,6 +39,13 @@ theorem tie_h_node_setCmdRunning : Extracted.Sched.h_node_setCmdRunning = Canon.
 theorem tie_h_node_isCmdRunning : Extracted.Sched.h_node_isCmdRunning = Canon.Sched.h_node_isCmdRunning := by decide +kernel
 theorem tie_h_node_init : Extracted.Sched.h_node_init = Canon.Sched.h_node_init := by decide +kernel
 theorem tie_h_graph_IsRunning : Extracted.Sched.h_graph_IsRunning = Canon.Sched.h_graph_IsRunning := by decide +kernel
+theorem tie_h_rest_sched_dag_scheduler_scheduler_go : Extracted.Sched.h_rest_sched_dag_scheduler_scheduler_go = Canon.Sched.h_rest_sched_dag_scheduler_scheduler_go := by decide +kernel
+theorem tie_h_rest_sched_dag_scheduler_node_go : Extracted.Sched.h_rest_sched_dag_scheduler_node_go = Canon.Sched.h_rest_sched_dag_scheduler_node_go := by decide +kernel
+theorem tie_h_rest_sched_dag_scheduler_graph_go : Extracted.Sched.h_rest_sched_dag_scheduler_graph_go = Canon.Sched.h_rest_sched_dag_scheduler_graph_go := by decide +kernel
+theorem tie_h_rest_sched_dag_condition_go : Extracted.Sched.h_rest_sched_dag_condition_go = Canon.Sched.h_rest_sched_dag_condition_go := by decide +kernel
+theorem tie_h_rest_sched_patternutil_patternutil_go : Extracted.Sched.h_rest_sched_patternutil_patternutil_go = Canon.Sched.h_rest_sched_patternutil_patternutil_go := by decide +kernel
+theorem tie_h_rest_sched_dag_executor_executor_go : Extracted.Sched.h_rest_sched_dag_executor_executor_go = Canon.Sched.h_rest_sched_dag_executor_executor_go := by decide +kernel
+theorem tie_h_rest_sched_dag_executor_command_go : Extracted.Sched.h_rest_sched_dag_executor_command_go = Canon.Sched.h_rest_sched_dag_executor_command_go := by decide +kernel
 theorem tie_dryGuards : Extracted.Sched.dryGuards = Canon.Sched.dryGuards := by decide +kernel
 theorem tie_errSwitch : Extracted.Sched.errSwitch = Canon.Sched.errSwitch := by decide +kernel
 theorem tie_exitAppend : Extracted.Sched.exitAppend = Canon.Sched.exitAppend := by decide +kernel
@@ -88,6 +95,13 @@ theorem tie_statusCascade : Extracted.Sched.statusCascade = Canon.Sched.statusCa
 #print axioms tie_h_node_isCmdRunning
 #print axioms tie_h_node_init
 #print axioms tie_h_graph_IsRunning
+#print axioms tie_h_rest_sched_dag_scheduler_scheduler_go
+#print axioms tie_h_rest_sched_dag_scheduler_node_go
+#print axioms tie_h_rest_sched_dag_scheduler_graph_go
+#print axioms tie_h_rest_sched_dag_condition_go
+#print axioms tie_h_rest_sched_patternutil_patternutil_go
+#print axioms tie_h_rest_sched_dag_executor_executor_go
+#print axioms tie_h_rest_sched_dag_executor_command_go
 #print axioms tie_dryGuards
 #print axioms tie_errSwitch
 #print axioms tie_exitAppend
